@@ -47,16 +47,18 @@ from phyclone.utils import Timer
 
 ID = "C15"
 LEVEL = "proof"
-THEOREMS = ["fromDict_toDict", "fromDict_toDict_eq", "roundtrip_fixed_point", "roundtrip_edits_commute",
+THEOREMS = ["fromDict_toDict", "fromDict_toDict_wfd", "fromDict_toDict_eq", "roundtrip_fixed_point", "roundtrip_edits_commute",
             "trace_schedule", "trace_schedule_timed", "entry_after_update", "entry_consistent", "entry_data_complete"]
 BUDGET = {"quick": 100, "thorough": 600}
 MAX_JOBS = 14
 SEARCH_BUDGET = 60
 TOL = 1e-9
 EXPLANATION = (
-    "Proved in Lean on the store model (Model/Store.lean, Model/DictRT.lean) for every store satisfying the explicit invariant "
-    "WFd (distinct non-zero graph indices with arbitrary gaps and order, both index maps cover the payloads, every clone has a "
-    "_data entry listing exactly its payload's data points, no foreign _data keys, valid cache): from_dict(to_dict(s)) succeeds "
+    "Proved in Lean on the store model (Model/Store.lean, Model/DictRT.lean) for every store satisfying the shared invariants of "
+    "C06/C07 (Proofs/StoreInv.lean: WF, Full, CacheOK) plus the payload-order normalisation Aligned - and more generally the "
+    "weaker explicit invariant WFd they imply (distinct non-zero graph indices with arbitrary gaps and order, both index maps "
+    "cover the payloads, every clone has a _data entry listing exactly its payload's data points, no foreign _data keys, valid "
+    "cache): from_dict(to_dict(s)) succeeds "
     "and returns the same payload forest, maps, _data, last-added clone, cached vectors and both densities (literally the same "
     "store whenever the tree has a clone or the root vector is current; on a clone-less tree only the never-read root vector is "
     "recomputed), the result is a fixed point of the round trip, and a round trip in the middle of any edit history changes the "
@@ -66,8 +68,9 @@ EXPLANATION = (
     "limit fired in iteration m-1 and in none before; every entry is built from the state after relabel_nodes and the "
     "concentration update, restores, and log_p_one of the restored tree under the entry's alpha is the recorded value; with "
     "data conservation every entry holds all data exactly once.  The entry theorems take 'the samplers followed by relabel_nodes "
-    "preserve WFd / data completeness' as an explicit hypothesis (that is C06/C07's invariant on the same store model); the check "
-    "evaluates wfdB on every real tree it reaches.  Model and code are tied by: the model rebuilding the store from the real "
+    "preserve the invariants / data completeness' as an explicit hypothesis (that is C06/C07's wf_step / cacheOK_step on the same "
+    "store model); the check evaluates the executable forms (wfdB, and wfShB && fullB && cacheOKB && alignedB) on every real tree "
+    "it reaches.  Model and code are tied by: the model rebuilding the store from the real "
     "to_dict() output (per-clone log_p/log_r, root vector, log_p, log_p_one, labels), the model's trace loop run on the real "
     "chain's per-iteration trees and concentration draws (entry dicts incl. relabelled names and _data order, alpha, log_p_one), "
     "and the schedule under a programmable clock.")
@@ -189,7 +192,7 @@ def dict_fingerprint(d):
     """Value of a tree dict, independent of object identity (aliasing probe)."""
     return (sorted(map(tuple, d["graph"])), sorted(d["node_idx"].items(), key=lambda kv: name_key(kv[0])),
             sorted(d["node_idx_rev"].items()), sorted(((k, [p.idx for p in v]) for k, v in d["node_data"].items()), key=lambda kv: name_key(kv[0])),
-            tuple(d["grid_size"]), d["node_last_added_to"])
+            tuple(d["grid_size"]), d.get("node_last_added_to", "<missing>"))
 
 
 # ------------------------------------------------------------------------------- edit worlds
@@ -338,14 +341,14 @@ def gen_history(rnd, n, length, outliers_on, data):
     # phase 1: SMC-style placements of most data points; phase 2: arbitrary edits
     plan = ["place"] * rnd.randint(min(2, n), n) + [None] * length
     for force in plan:
-        op = gen_op(rnd, w, n, outliers_on, force)
-        if op is None:
-            continue
         try:
+            op = gen_op(rnd, w, n, outliers_on, force)
+            if op is None:
+                continue
+            ops.append(op)
             apply_op(w, op, data)
         except Exception:
-            break  # never expected; the replay in check() will report it
-        ops.append(op)
+            break  # never expected on the unchanged code; the replay in check() reports what happened
     return ops
 
 
@@ -382,7 +385,7 @@ def describe_dict(d):
         "node_idx": [[int(k), int(v)] for k, v in d["node_idx"].items() if k != "root"],
         "node_idx_rev": [[int(k), int(v)] for k, v in d["node_idx_rev"].items() if v != "root"],
         "node_data": [[int(k), [p.idx for p in v]] for k, v in d["node_data"].items() if k != "root"],
-        "last": None if d["node_last_added_to"] is None else int(d["node_last_added_to"]),
+        "last": None if d.get("node_last_added_to") is None else int(d["node_last_added_to"]),
     }
 
 
@@ -476,14 +479,20 @@ def check_dict(ctx, case):
         try:
             apply_op(w, tuple(op), data)
         except Exception as e:
-            ctx.corr_fail(case, "harness: history op is not legal on the real tree", f"{op}: {type(e).__name__}: {e}")
+            if op[0] == "rt":
+                ctx.oracle_fail(case, "a dictionary round trip inside the edit history raised", SITE_FD, f"restore-raised:history:{type(e).__name__}",
+                                "".join(traceback.format_exception_only(type(e), e))[:400])
+            else:
+                ctx.corr_fail(case, "harness: history op is not legal on the real tree", f"{op}: {type(e).__name__}: {e}")
             ctx.done(case, nontrivial=False)
             return
     t = w.tree
     try:
         o0 = observe(t, alpha)
-    except WFError as e:
-        ctx.oracle_fail(case, "tree reached by the edit history is not well formed", "tree/tree.py:Tree", "not-well-formed", str(e))
+    except Exception as e:
+        rt_in = any(op[0] == "rt" for op in case["ops"])
+        ctx.oracle_fail(case, "tree reached by the edit history is not well formed" + (" (the history contains a dictionary round trip)" if rt_in else ""),
+                        SITE_FD if rt_in else "tree/tree.py:Tree", "not-well-formed:" + type(e).__name__, str(e)[:400])
         ctx.done(case, nontrivial=False)
         return
     idxs = sorted(int(i) for i in t._graph.node_indices())
@@ -632,8 +641,9 @@ def model_dict_compare(ctx, case, ds, t, alpha):
         ctx.corr_fail(case, "to_dict() does not copy the maps / _data / last-added of the tree", {"dict": dd, "tree": desc})
         return
     ans = ctx.ask({"op": "c15_rt", "data": ds.to_json(), "alpha": fr(alpha), "n": ds.n, "store": desc, "edges": dd["edges"]})
-    if not ans["wfd"]:
-        ctx.corr_fail(case, "a reachable real tree does not satisfy the hypothesis WFd of the round-trip theorem", desc)
+    if not (ans["wfd"] and ans["shared"]):
+        ctx.corr_fail(case, "a reachable real tree does not satisfy the hypotheses of the round-trip theorem (WFd / WF, Full, CacheOK, Aligned)",
+                      {"wfd": ans["wfd"], "shared": ans["shared"], "tree": desc})
         return
     if sorted(map(tuple, ans["dict"]["edges"])) != sorted(map(tuple, dd["edges"])):
         ctx.corr_fail(case, "edge list of to_dict differs from the model's toDict", {"code": dd["edges"], "model": ans["dict"]["edges"]})
@@ -650,8 +660,8 @@ def model_dict_compare(ctx, case, ds, t, alpha):
         ctx.corr_fail(case, "model's fromDict fails on a dictionary the code restores", dd)
         return
     errs += compare_model_store(ans["rt_real"], r, alpha, "restored")
-    if not ans["rt_real"]["wfd"]:
-        errs.append("restored model store does not satisfy WFd")
+    if not (ans["rt_real"]["wfd"] and ans["rt_real"]["shared"]):
+        errs.append("restored model store does not satisfy the invariants")
     for e in errs:
         ctx.corr_fail(case, "store model differs from the real tree", e)
 
@@ -872,8 +882,8 @@ def model_trace_compare(ctx, case, ds, cfg, trace, rec):
             errs.append(f"last-added model {md['last']} vs code {dd['last']}")
         if me["restored"] is None:
             errs.append("model cannot restore its own entry")
-        elif not (me["restored"]["wfd"] and me["restored"]["complete"]):
-            errs.append("model: restored entry not WFd / not data-complete")
+        elif not (me["restored"]["wfd"] and me["restored"]["shared"] and me["restored"]["complete"]):
+            errs.append("model: restored entry violates the invariants / is not data-complete")
         else:
             errs += compare_model_store(me["restored"], Tree.from_dict(e["tree"]), Fraction(float(e["alpha"])), f"entry {k}")
         for x in errs[:3]:
